@@ -634,6 +634,57 @@ fn is_user(c: &Cand) -> bool {
     c.id < 1000
 }
 
+/// source text of one user candidate named `fname`: (declaration, definition).  An ordinary free function is declared as
+/// a prototype and has a separate definition; a template needs its body (it is the template source) and methods are
+/// written with bodies: their declaration is the definition and the second component is None.
+fn cand_decl(c: &Cand, fname: &str, in_struct: bool) -> Option<(String, Option<String>)> {
+    if c.non_default > c.params.len() {
+        return None;
+    }
+    let mut ps = Vec::new();
+    for (i, p) in c.params.iter().enumerate() {
+        if p.ty.mods.0 != 0 {
+            return None;
+        }
+        if is_template_layer(p.ty.layer) && c.tkinds.is_empty() {
+            return None;
+        }
+        let (t, suf) = spell2(p.ty)?;
+        let io = match p.io {
+            Io::In => "",
+            Io::Out => "out ",
+            Io::InOut => "inout ",
+        };
+        let mut d = format!("{}{} p{}{}", io, t, i, suf);
+        if i >= c.non_default {
+            if p.io != Io::In || !is_numeric(p.ty.layer) {
+                return None;
+            }
+            d.push_str(&format!(" = ({})0", t));
+        }
+        ps.push(d);
+    }
+    let body = format!("{{ R{} r; return r; }}", c.id);
+    if c.tkinds.is_empty() && !in_struct {
+        Some((
+            format!("R{} {}({});\n", c.id, fname, ps.join(", ")),
+            Some(format!("R{} {}({}) {}\n", c.id, fname, ps.join(", "), body)),
+        ))
+    } else {
+        let mut head = String::new();
+        if !c.tkinds.is_empty() {
+            let tp: Vec<String> = c
+                .tkinds
+                .iter()
+                .enumerate()
+                .map(|(k, ty)| if *ty { format!("typename T{}", k) } else { format!("uint T{}", k) })
+                .collect();
+            head = format!("template<{}> ", tp.join(", "));
+        }
+        Some((format!("{}R{} {}({}) {}\n", head, c.id, fname, ps.join(", "), body), None))
+    }
+}
+
 /// RSSL program for one declaration order; None = not expressible (SKIP).  `expect` is the struct named in assert_type.
 fn program(cands: &[Cand], args: &[ETy], opts: &Opts, expect: Option<u32>) -> Option<String> {
     let mut s = String::new();
@@ -743,49 +794,10 @@ fn program(cands: &[Cand], args: &[ETy], opts: &Opts, expect: Option<u32>) -> Op
     let mut decls: Vec<String> = Vec::new();
     let mut defs: Vec<String> = Vec::new();
     for c in cands.iter().filter(|c| is_user(c)) {
-        if c.non_default > c.params.len() {
-            return None;
-        }
-        let mut ps = Vec::new();
-        for (i, p) in c.params.iter().enumerate() {
-            if p.ty.mods.0 != 0 {
-                return None;
-            }
-            if is_template_layer(p.ty.layer) && c.tkinds.is_empty() {
-                return None;
-            }
-            let (t, suf) = spell2(p.ty)?;
-            let io = match p.io {
-                Io::In => "",
-                Io::Out => "out ",
-                Io::InOut => "inout ",
-            };
-            let mut d = format!("{}{} p{}{}", io, t, i, suf);
-            if i >= c.non_default {
-                if p.io != Io::In || !is_numeric(p.ty.layer) {
-                    return None;
-                }
-                d.push_str(&format!(" = ({})0", t));
-            }
-            ps.push(d);
-        }
-        let body = format!("{{ R{} r; return r; }}", c.id);
-        if c.tkinds.is_empty() && !in_struct {
-            decls.push(format!("R{} {}({});\n", c.id, fname, ps.join(", ")));
-            defs.push(format!("R{} {}({}) {}\n", c.id, fname, ps.join(", "), body));
-        } else {
-            // a template needs its body (it is the template source); methods are written with bodies
-            let mut head = String::new();
-            if !c.tkinds.is_empty() {
-                let tp: Vec<String> = c
-                    .tkinds
-                    .iter()
-                    .enumerate()
-                    .map(|(k, ty)| if *ty { format!("typename T{}", k) } else { format!("uint T{}", k) })
-                    .collect();
-                head = format!("template<{}> ", tp.join(", "));
-            }
-            decls.push(format!("{}R{} {}({}) {}\n", head, c.id, fname, ps.join(", "), body));
+        let (decl, def) = cand_decl(c, &fname, in_struct)?;
+        decls.push(decl);
+        if let Some(d) = def {
+            defs.push(d);
         }
     }
     if opts.with_defs {
@@ -906,6 +918,11 @@ enum Verdict {
     /// an overload was selected and the call then refused by `check_output_arguments`:
     /// true = `LvalueRequired`, false = `MutableRequired`
     Refused(bool),
+    /// `UnknownIdentifier`: no scope the lookup reaches knows the name (sequences only)
+    NoName,
+    /// the call is refused, and the type checker does not say how: a call in a method body of a struct template is reported
+    /// at the use of the template as "identifier .. is not expected to be a type" (sequences only)
+    Rejected,
     Panic(String),
     Other(String),
 }
@@ -918,6 +935,8 @@ fn show_verdict(v: &Verdict) -> String {
         Verdict::Unmatched => "none".into(),
         Verdict::Refused(true) => "lvreq".into(),
         Verdict::Refused(false) => "mutreq".into(),
+        Verdict::NoName => "noname".into(),
+        Verdict::Rejected => "rej".into(),
         Verdict::Panic(_) => "panic".into(),
         Verdict::Other(e) => format!("error:{}", e),
     }
@@ -932,6 +951,8 @@ enum Checked {
     Mismatch(ir::Module, Vec<ir::FunctionId>, bool),
     /// `LvalueRequired(_)` (true) / `MutableRequired(_)` (false)
     PlaceRefused(bool),
+    /// `UnknownIdentifier(_)`
+    Unknown(String),
     Other(String),
 }
 
@@ -962,6 +983,7 @@ fn type_check_src(src: &str) -> Checked {
                 // the generated programs write to nothing but the call's out / inout arguments
                 rssl::typer::TyperError::LvalueRequired(_) => Checked::PlaceRefused(true),
                 rssl::typer::TyperError::MutableRequired(_) => Checked::PlaceRefused(false),
+                rssl::typer::TyperError::UnknownIdentifier(_) => Checked::Unknown(format!("type:{}", first)),
                 _ => Checked::Other(format!("type:{}", first)),
             }
         }
@@ -1167,7 +1189,7 @@ fn run_program(cands: &[Cand], args: &[ETy], opts: &Opts) -> Option<Verdict> {
             }
         }
         Ok(Checked::PlaceRefused(lv)) => Verdict::Refused(lv),
-        Ok(Checked::Other(e)) => Verdict::Other(e),
+        Ok(Checked::Unknown(e)) | Ok(Checked::Other(e)) => Verdict::Other(e),
     };
     Some(v)
 }
@@ -1524,13 +1546,15 @@ struct Group {
 struct Runner {
     real: Real,
     cache: HashMap<String, Group>,
+    /// C16.seq: verdict of the one-call program per (candidate set, arguments, options)
+    refs: HashMap<String, Option<Verdict>>,
     hist: Hist,
     compiles: u64,
 }
 
 impl Runner {
     fn new() -> Self {
-        Runner { real: Real::new(), cache: HashMap::new(), hist: Hist::default(), compiles: 0 }
+        Runner { real: Real::new(), cache: HashMap::new(), refs: HashMap::new(), hist: Hist::default(), compiles: 0 }
     }
 
     /// the compiler's own overloads for a path (empty for the other paths); None = not describable
@@ -1647,6 +1671,8 @@ impl Runner {
             Verdict::Unmatched => "verdict:unmatched",
             Verdict::Refused(true) => "verdict:refused-lvalue-required",
             Verdict::Refused(false) => "verdict:refused-non-const-required",
+            Verdict::NoName => "verdict:unknown-name",
+            Verdict::Rejected => "verdict:refused-without-a-reason",
             Verdict::Panic(_) => "verdict:panic",
             Verdict::Other(_) => "verdict:other-error",
         };
@@ -1766,6 +1792,744 @@ impl Runner {
             });
         }
         out.case(&req, &cells.join(" "), &verdict);
+    }
+}
+
+
+// ------------------------------------------------------------------------------------------- sequences
+//
+// request : C16.seq \t item|item|... [\t P=M | P=A.<name>]
+//             item = d~<scope>~<cand>          declare a candidate (scope 0 = the root scope / the struct, 1 = `namespace N`,
+//                                              every such item in its own `namespace N { .. }` block); ordinary free functions
+//                                              as prototypes, templates and methods with their bodies
+//                  | r~<id>                    define the ordinary free function declared earlier with this id (a redeclaration)
+//                  | c~<mode>~<args>~<targs>   a call site `void c<k>() { .. f(args) .. }` at this place of the source
+//                  | h~<j>~<mode>~<args>       `template<typename Z> void h<j>(Z z) { .. f(args) .. }`: a call site in a template body
+//                  | t~<j>~<i|f>               `void t<k>() { h<j>(0) }` / `h<j>(0.0)`: instantiates h<j><int> / h<j><float>
+//             mode = how the call looks the name up: 0 from the root scope `f(..)`, 1 from the root scope `N::f(..)`,
+//                    2 from inside `namespace N` `f(..)`, 3 from inside `namespace N` `::f(..)`
+//                    (P=M: 0 from a sibling method at this place of the struct, 1 `s.f(..)` from a function after the struct)
+//           One program holds the whole sequence; the call sites are bare calls.  A site that is refused would end the
+//           compilation, so the verdicts are read one site at a time: the program with every declaration, the accepted
+//           earlier sites and the site under test.
+// observe : one verdict per c / t item, ` | ` separated: sel.. | amb.. | none | lvreq | mutreq | noname (no scope the lookup
+//           reaches knows the name) | `=` (a trigger whose instance exists already: nothing is resolved again)
+// oracle  : (independent of the Lean model) every site's verdict is judged, with the oracle of C16.resolve, on the set of
+//           candidates *visible at the site* - declared above it in a scope the lookup reaches (all methods of the struct) - and
+//           it equals the verdict of a separate program that declares exactly that set and then calls once: the verdict
+//           depends on the visible set and the argument types only, not on what was called or declared in which order before.
+
+#[derive(Clone, PartialEq, Eq, Debug)]
+enum Item {
+    Decl(u8, Cand),
+    Define(u32),
+    Site(u8, Vec<ETy>, Vec<Option<Ty>>),
+    /// number, lookup mode, arguments of the call in the body, true = the body is a method of a struct template
+    Helper(u32, u8, Vec<ETy>, bool),
+    Trigger(u32, bool),
+}
+
+#[derive(Clone, PartialEq, Eq, Debug)]
+enum SeqPath {
+    Free,
+    Method,
+    /// methods of `template<typename W> struct S`, every call `S<int> s; s.f(..)` from a function after the struct
+    TStruct,
+    Intrinsic(String),
+}
+
+fn show_item(i: &Item) -> String {
+    match i {
+        Item::Decl(s, c) => format!("d~{}~{}", s, show_cand(c)),
+        Item::Define(id) => format!("r~{}", id),
+        Item::Site(m, a, t) => format!("c~{}~{}~{}", m, show_args(a), t.iter().map(show_targ).collect::<Vec<_>>().join("+")),
+        Item::Helper(j, m, a, st) => format!("{}~{}~{}~{}", if *st { "s" } else { "h" }, j, m, show_args(a)),
+        Item::Trigger(j, z) => format!("t~{}~{}", j, if *z { "f" } else { "i" }),
+    }
+}
+
+fn parse_args(s: &str) -> Option<Vec<ETy>> {
+    if s.is_empty() { Some(Vec::new()) } else { s.split(',').map(parse_ety).collect() }
+}
+
+fn parse_item(s: &str) -> Option<Item> {
+    let f: Vec<&str> = s.split('~').collect();
+    match f.as_slice() {
+        ["d", sc, c] => Some(Item::Decl(sc.parse().ok().filter(|x| *x <= 1)?, parse_cand(c)?)),
+        ["r", id] => Some(Item::Define(id.parse().ok()?)),
+        ["c", m, a, t] => {
+            let mut targs = Vec::new();
+            if !t.is_empty() {
+                for x in t.split('+') {
+                    if x == "#" {
+                        targs.push(None);
+                    } else {
+                        let p: Vec<&str> = x.split('/').collect();
+                        if p.len() != 2 {
+                            return None;
+                        }
+                        targs.push(Some(Ty { mods: parse_mods(p[0])?, layer: parse_layer(p[1])? }));
+                    }
+                }
+            }
+            Some(Item::Site(m.parse().ok().filter(|x| *x <= 3)?, parse_args(a)?, targs))
+        }
+        ["h", j, m, a] => Some(Item::Helper(j.parse().ok()?, m.parse().ok().filter(|x| *x <= 3)?, parse_args(a)?, false)),
+        ["s", j, m, a] => Some(Item::Helper(j.parse().ok()?, m.parse().ok().filter(|x| *x <= 3)?, parse_args(a)?, true)),
+        ["t", j, "i"] => Some(Item::Trigger(j.parse().ok()?, false)),
+        ["t", j, "f"] => Some(Item::Trigger(j.parse().ok()?, true)),
+        _ => None,
+    }
+}
+
+fn show_seq(items: &[Item], path: &SeqPath) -> String {
+    let body = items.iter().map(show_item).collect::<Vec<_>>().join("|");
+    match path {
+        SeqPath::Free => format!("C16.seq\t{}", body),
+        SeqPath::Method => format!("C16.seq\t{}\tP=M", body),
+        SeqPath::TStruct => format!("C16.seq\t{}\tP=U", body),
+        SeqPath::Intrinsic(n) => format!("C16.seq\t{}\tP=A.{}", body, n),
+    }
+}
+
+fn parse_seq_path(s: &str) -> Option<SeqPath> {
+    match s {
+        "" => Some(SeqPath::Free),
+        "P=M" => Some(SeqPath::Method),
+        "P=U" => Some(SeqPath::TStruct),
+        _ => s.strip_prefix("P=A.").map(|n| SeqPath::Intrinsic(n.to_string())),
+    }
+}
+
+/// is the sequence one the protocol means: ids and helper numbers unique, the compiler's own overloads first and only on
+/// their path, a definition after its prototype, a trigger after its helper, scopes and modes that exist on the path
+fn seq_well_formed(items: &[Item], path: &SeqPath) -> bool {
+    let mut ids: Vec<u32> = Vec::new();
+    let mut defined: Vec<u32> = Vec::new();
+    let mut helpers: Vec<u32> = Vec::new();
+    let mut users_seen = false;
+    for it in items {
+        match it {
+            Item::Decl(sc, c) => {
+                if ids.contains(&c.id) {
+                    return false;
+                }
+                ids.push(c.id);
+                if is_user(c) {
+                    users_seen = true;
+                } else if users_seen || !matches!(path, SeqPath::Intrinsic(_)) {
+                    return false;
+                }
+                if *sc != 0 && !matches!(path, SeqPath::Free | SeqPath::Method) {
+                    return false;
+                }
+            }
+            Item::Define(id) => {
+                let plain = items.iter().any(|x| matches!(x, Item::Decl(_, c) if c.id == *id && c.tkinds.is_empty() && is_user(c)));
+                if *path != SeqPath::Free && !matches!(path, SeqPath::Intrinsic(_)) {
+                    return false;
+                }
+                if !ids.contains(id) || !plain || defined.contains(id) {
+                    return false;
+                }
+                defined.push(*id);
+            }
+            Item::Site(m, _, _) => {
+                let ok = match path {
+                    SeqPath::Free => *m <= 3,
+                    // a struct without a method of the name gives other diagnostics than the ones read here
+                    SeqPath::Method => {
+                        let scope = if *m >= 2 { 1 } else { 0 };
+                        *m <= 3 && items.iter().any(|x| matches!(x, Item::Decl(sc, _) if *sc == scope))
+                    }
+                    SeqPath::TStruct => *m == 1,
+                    SeqPath::Intrinsic(_) => *m == 0,
+                };
+                if !ok {
+                    return false;
+                }
+            }
+            Item::Helper(j, _, _, _) => {
+                if *path != SeqPath::Free || helpers.contains(j) {
+                    return false;
+                }
+                helpers.push(*j);
+            }
+            Item::Trigger(j, _) => {
+                if !helpers.contains(j) {
+                    return false;
+                }
+            }
+        }
+    }
+    true
+}
+
+/// The candidates a call at place `pos` with lookup `mode` can see, in the property's words: declared above the call
+/// in the scope the lookup reaches - the innermost scope that knows the name for an unqualified call, the named scope
+/// for a qualified one; every method of the struct.  None = no such scope knows the name.
+fn visible_at(items: &[Item], pos: usize, mode: u8, path: &SeqPath) -> Option<Vec<Cand>> {
+    let upto = if matches!(path, SeqPath::Method | SeqPath::TStruct) { items.len() } else { pos };
+    let of = |scope: u8| -> Vec<Cand> {
+        items[..upto]
+            .iter()
+            .filter_map(|i| match i {
+                Item::Decl(s, c) if *s == scope => Some(c.clone()),
+                _ => None,
+            })
+            .collect()
+    };
+    let (root, ns) = (of(0), of(1));
+    let v = match (path, mode) {
+        (SeqPath::Free, 1) => ns,
+        (SeqPath::Free, 2) if !ns.is_empty() => ns,
+        // the methods of the second struct
+        (SeqPath::Method, 2 | 3) => ns,
+        _ => root,
+    };
+    if v.is_empty() { None } else { Some(v) }
+}
+
+/// globals, locals and expressions for the arguments of site `tag` (locals / function results / literals)
+fn seq_arg_exprs(args: &[ETy], tag: &str) -> Option<(String, String, Vec<String>)> {
+    let (mut globals, mut locals, mut exprs) = (String::new(), String::new(), Vec::new());
+    for (i, a) in args.iter().enumerate() {
+        match (a.lvalue, a.ty.mods.0, a.ty.layer) {
+            (false, 0, Layer::Scalar(S_INTLIT)) => exprs.push("0".to_string()),
+            (false, 0, Layer::Scalar(S_FLOATLIT)) => exprs.push("0.0".to_string()),
+            (true, 0, l) if is_object_layer(l) => {
+                globals.push_str(&format!("{} g_a{}_{};\n", spell(a.ty)?, tag, i));
+                exprs.push(format!("g_a{}_{}", tag, i));
+            }
+            (false, 0, _) => {
+                globals.push_str(&format!("{} rv{}_{}();\n", spell(a.ty)?, tag, i));
+                exprs.push(format!("rv{}_{}()", tag, i));
+            }
+            (true, 0, _) => {
+                let (t, suf) = spell2(a.ty)?;
+                locals.push_str(&format!("    {} a{}{};\n", t, i, suf));
+                exprs.push(format!("a{}", i));
+            }
+            (true, 1, l) if is_numeric(l) => {
+                let t = spell(Ty { mods: Mods(0), layer: l })?;
+                locals.push_str(&format!("    const {} a{} = ({})0;\n", t, i, t));
+                exprs.push(format!("a{}", i));
+            }
+            _ => return None,
+        }
+    }
+    Some((globals, locals, exprs))
+}
+
+fn seq_fname(path: &SeqPath) -> String {
+    match path {
+        SeqPath::Intrinsic(n) => n.clone(),
+        _ => "f".to_string(),
+    }
+}
+
+/// the program for a sequence; `include[k]` = whether the c / t item at place k is written (the other kinds always are)
+fn seq_program(items: &[Item], include: &[bool], path: &SeqPath) -> Option<String> {
+    let fname = seq_fname(path);
+    let mut s = String::new();
+    let mut others: Vec<u32> = Vec::new();
+    let mut enums: Vec<u32> = Vec::new();
+    let mut note = |l: Layer| match l {
+        Layer::Other(i) if i < 100 && !others.contains(&i) => others.push(i),
+        Layer::Enum(i) if !enums.contains(&i) => enums.push(i),
+        _ => {}
+    };
+    for it in items {
+        match it {
+            Item::Decl(_, c) => c.params.iter().for_each(|p| note(p.ty.layer)),
+            Item::Site(_, a, t) => {
+                a.iter().for_each(|a| note(a.ty.layer));
+                t.iter().flatten().for_each(|t| note(t.layer));
+            }
+            Item::Helper(_, _, a, _) => a.iter().for_each(|a| note(a.ty.layer)),
+            _ => {}
+        }
+    }
+    others.sort();
+    enums.sort();
+    for i in &others {
+        s.push_str(&format!("struct S{} {{ int q; }};\n", i));
+    }
+    for i in &enums {
+        s.push_str(&format!("enum E{} {{ E{}_A }};\n", i, i));
+    }
+    for it in items {
+        if let Item::Decl(_, c) = it {
+            if is_user(c) {
+                s.push_str(&format!("struct R{} {{ int q; }};\n", c.id));
+            }
+        }
+    }
+    let in_struct = matches!(path, SeqPath::Method | SeqPath::TStruct);
+    let wrap = |inside: bool, text: &str| if inside { format!("namespace N {{\n{}}}\n", text) } else { text.to_string() };
+    let mut body = String::new(); // P=M: the members of the struct
+    let mut body2 = String::new(); // P=M: the members of the second struct
+    let mut after = String::new(); // P=M: what follows the structs
+    for (k, it) in items.iter().enumerate() {
+        match it {
+            Item::Decl(sc, c) => {
+                if !is_user(c) {
+                    continue;
+                }
+                let (decl, _) = cand_decl(c, &fname, in_struct)?;
+                if in_struct {
+                    if *sc == 1 { body2.push_str(&decl) } else { body.push_str(&decl) }
+                } else {
+                    s.push_str(&wrap(*sc == 1, &decl));
+                }
+            }
+            Item::Define(id) => {
+                let (sc, c) = items.iter().find_map(|x| match x {
+                    Item::Decl(sc, c) if c.id == *id => Some((*sc, c)),
+                    _ => None,
+                })?;
+                let (_, def) = cand_decl(c, &fname, false)?;
+                s.push_str(&wrap(sc == 1, &def?));
+            }
+            Item::Site(mode, args, targs) => {
+                if !include[k] {
+                    continue;
+                }
+                let (globals, locals, exprs) = seq_arg_exprs(args, &k.to_string())?;
+                let mut callee = fname.clone();
+                if !targs.is_empty() {
+                    let mut ts = Vec::new();
+                    for t in targs {
+                        ts.push(match t {
+                            None => "2".to_string(),
+                            Some(t) => spell(*t)?,
+                        });
+                    }
+                    callee = format!("{}<{}>", callee, ts.join(", "));
+                }
+                let call = |q: &str| format!("    {}{}({});\n", q, callee, exprs.join(", "));
+                if in_struct {
+                    if *mode == 0 || *mode == 3 {
+                        s.push_str(&globals);
+                        let text = format!("void c{}() {{\n{}{}}}\n", k, locals, call(""));
+                        if *mode == 3 { body2.push_str(&text) } else { body.push_str(&text) }
+                    } else {
+                        after.push_str(&globals);
+                        let ty = if *path == SeqPath::TStruct { "S<int>" } else if *mode == 2 { "S2" } else { "S" };
+                        after.push_str(&format!("void c{}() {{\n    {} s;\n{}{}}}\n", k, ty, locals, call("s.")));
+                    }
+                } else {
+                    s.push_str(&globals);
+                    let q = match mode {
+                        1 => "N::",
+                        3 => "::",
+                        _ => "",
+                    };
+                    s.push_str(&wrap(*mode >= 2, &format!("void c{}() {{\n{}{}}}\n", k, locals, call(q))));
+                }
+            }
+            Item::Helper(j, mode, args, is_struct) => {
+                let (globals, locals, exprs) = seq_arg_exprs(args, &format!("h{}", j))?;
+                s.push_str(&globals);
+                let q = match mode {
+                    1 => "N::",
+                    3 => "::",
+                    _ => "",
+                };
+                let text = if *is_struct {
+                    format!(
+                        "template<typename Z> struct H{} {{\nvoid hg{}() {{\n{}    {}{}({});\n}}\n}};\n",
+                        j,
+                        j,
+                        locals,
+                        q,
+                        fname,
+                        exprs.join(", ")
+                    )
+                } else {
+                    format!("template<typename Z> void h{}(Z z) {{\n{}    {}{}({});\n}}\n", j, locals, q, fname, exprs.join(", "))
+                };
+                s.push_str(&wrap(*mode >= 2, &text));
+            }
+            Item::Trigger(j, z) => {
+                if !include[k] {
+                    continue;
+                }
+                let (mode, is_struct) = items.iter().find_map(|x| match x {
+                    Item::Helper(j2, m, _, st) if j2 == j => Some((*m, *st)),
+                    _ => None,
+                })?;
+                let ns = if mode >= 2 { "N::" } else { "" };
+                if is_struct {
+                    s.push_str(&format!("void t{}() {{\n    {}H{}<{}> x;\n    x.hg{}();\n}}\n", k, ns, j, if *z { "float" } else { "int" }, j));
+                } else {
+                    s.push_str(&format!("void t{}() {{\n    {}h{}({});\n}}\n", k, ns, j, if *z { "0.0" } else { "0" }));
+                }
+            }
+        }
+    }
+    if in_struct {
+        let head = if *path == SeqPath::TStruct { "template<typename W> " } else { "" };
+        let second = if body2.is_empty() { String::new() } else { format!("struct S2 {{\n{}}};\n", body2) };
+        s.push_str(&format!("{}struct S {{\n{}}};\n{}{}", head, body, second, after));
+    }
+    Some(s)
+}
+
+/// what one c / t item showed
+#[derive(Clone, PartialEq, Eq, Debug)]
+enum SiteObs {
+    V(Verdict),
+    /// the trigger calls an instance an earlier trigger built: its body is not type checked again
+    Cached,
+}
+
+fn show_site_obs(o: &SiteObs) -> String {
+    match o {
+        SiteObs::V(v) => show_verdict(v),
+        SiteObs::Cached => "=".into(),
+    }
+}
+
+fn function_named(module: &ir::Module, name: &str) -> Option<ir::FunctionId> {
+    module.function_registry.iter().find(|id| module.function_registry.get_function_name(*id) == name)
+}
+
+fn call_in_function(module: &ir::Module, f: ir::FunctionId, name: &str) -> Option<ir::FunctionId> {
+    let imp = module.function_registry.get_function_implementation(f).as_ref()?;
+    call_in_block(&imp.scope_block, module, name)
+}
+
+/// the verdicts of the written c / t items of an accepted program
+fn seq_read_accepted(m: &mut ir::Module, items: &[Item], include: &[bool], path: &SeqPath) -> Vec<(usize, SiteObs)> {
+    let fname = seq_fname(path);
+    let bpath = match path {
+        SeqPath::Intrinsic(n) => Path::Intrinsic(n.clone()),
+        _ => Path::Free,
+    };
+    let builtins = builtin_cands(m, &bpath).unwrap_or_default();
+    let is_template = |id: u32| items.iter().any(|x| matches!(x, Item::Decl(_, c) if c.id == id && !c.tkinds.is_empty()));
+    let selected = |m: &ir::Module, holder: ir::FunctionId| -> SiteObs {
+        match call_in_function(m, holder, &fname).and_then(|f| cand_of(m, f, &builtins)) {
+            Some((id, t)) => SiteObs::V(Verdict::Sel(id, if is_template(id) { t } else { None })),
+            None => SiteObs::V(Verdict::Other("accepted, but the call is not in the module".into())),
+        }
+    };
+    let mut out = Vec::new();
+    let mut instances: Vec<ir::FunctionId> = Vec::new();
+    for (k, it) in items.iter().enumerate() {
+        if !include[k] {
+            continue;
+        }
+        match it {
+            Item::Site(..) => {
+                let o = match function_named(m, &format!("c{}", k)) {
+                    Some(holder) => selected(m, holder),
+                    None => SiteObs::V(Verdict::Other("accepted, but the calling function is not in the module".into())),
+                };
+                out.push((k, o));
+            }
+            Item::Trigger(j, _) => {
+                let is_struct = items.iter().any(|x| matches!(x, Item::Helper(j2, _, _, true) if j2 == j));
+                let callee = if is_struct { format!("hg{}", j) } else { format!("h{}", j) };
+                let inst = function_named(m, &format!("t{}", k)).and_then(|t| call_in_function(m, t, &callee));
+                let o = match inst {
+                    Some(x) if instances.contains(&x) => SiteObs::Cached,
+                    Some(x) => {
+                        instances.push(x);
+                        selected(m, x)
+                    }
+                    None => SiteObs::V(Verdict::Other("accepted, but the call of the helper is not in the module".into())),
+                };
+                out.push((k, o));
+            }
+            _ => {}
+        }
+    }
+    out
+}
+
+/// the verdict a rejected program gives for the one site that was added last
+fn seq_read_rejected(c: Checked, path: &SeqPath) -> Verdict {
+    let fname = seq_fname(path);
+    let bpath = match path {
+        SeqPath::Intrinsic(n) => Path::Intrinsic(n.clone()),
+        _ => Path::Free,
+    };
+    match c {
+        Checked::Ok(_) => Verdict::Other("accepted".into()),
+        Checked::AssertFailed(..) => Verdict::Other("assert_type failed in a program without assert_type".into()),
+        Checked::Mismatch(mut m, ids, amb) => {
+            let builtins = builtin_cands(&mut m, &bpath).unwrap_or_default();
+            let ours = ids.first().map(|f| m.function_registry.get_function_name(*f) == fname).unwrap_or(true);
+            if !ours {
+                Verdict::Other("mismatch reported for another call".into())
+            } else if amb {
+                let mut out = Vec::new();
+                for f in &ids {
+                    match cand_of(&m, *f, &builtins) {
+                        Some((id, _)) => out.push(id),
+                        None => return Verdict::Other("ambiguity names an unknown function".into()),
+                    }
+                }
+                out.sort();
+                Verdict::Amb(out)
+            } else {
+                Verdict::Unmatched
+            }
+        }
+        Checked::PlaceRefused(lv) => Verdict::Refused(lv),
+        Checked::Unknown(_) => Verdict::NoName,
+        Checked::Other(e) => Verdict::Other(e),
+    }
+}
+
+/// run a sequence on the real type checker: one observation per c / t item (by place).  None = not expressible;
+/// Err = the declarations alone are not accepted.
+fn run_seq(items: &[Item], path: &SeqPath, compiles: &mut u64) -> Option<Result<Vec<(usize, SiteObs)>, String>> {
+    let is_site = |i: &Item| matches!(i, Item::Site(..) | Item::Trigger(..));
+    let all: Vec<bool> = items.iter().map(is_site).collect();
+    let src = seq_program(items, &all, path)?;
+    *compiles += 1;
+    match guard(|| type_check_src(&src)) {
+        Ok(Checked::Ok(mut m)) => return Some(Ok(seq_read_accepted(&mut m, items, &all, path))),
+        Err(_) | Ok(_) => {}
+    }
+    // some site is refused: one site at a time, on top of the declarations and the accepted earlier sites
+    let mut include: Vec<bool> = vec![false; items.len()];
+    let base = seq_program(items, &include, path)?;
+    *compiles += 1;
+    match guard(|| type_check_src(&base)) {
+        Ok(Checked::Ok(_)) => {}
+        Ok(Checked::Other(e)) | Ok(Checked::Unknown(e)) => return Some(Err(e)),
+        Ok(_) => return Some(Err("the declarations alone are refused".into())),
+        Err(p) => return Some(Err(format!("panic {}", p))),
+    }
+    let mut out: Vec<(usize, SiteObs)> = Vec::new();
+    for k in 0..items.len() {
+        if !is_site(&items[k]) {
+            continue;
+        }
+        include[k] = true;
+        let src = seq_program(items, &include, path)?;
+        *compiles += 1;
+        match guard(|| type_check_src(&src)) {
+            Err(p) => {
+                include[k] = false;
+                out.push((k, SiteObs::V(Verdict::Panic(p))));
+            }
+            Ok(Checked::Ok(mut m)) => {
+                let r = seq_read_accepted(&mut m, items, &include, path);
+                match r.into_iter().find(|(kk, _)| *kk == k) {
+                    Some(x) => out.push(x),
+                    None => out.push((k, SiteObs::V(Verdict::Other("site not read".into())))),
+                }
+            }
+            Ok(c) => {
+                include[k] = false;
+                let mut v = seq_read_rejected(c, path);
+                // an error inside the instantiation of a struct template surfaces as an error about the template's name
+                let in_struct_template = matches!(&items[k], Item::Trigger(j, _)
+                    if items.iter().any(|x| matches!(x, Item::Helper(j2, _, _, true) if j2 == j)));
+                if in_struct_template && matches!(&v, Verdict::Other(e) if e.contains("is not expected to be a type")) {
+                    v = Verdict::Rejected;
+                }
+                out.push((k, SiteObs::V(v)));
+            }
+        }
+    }
+    Some(Ok(out))
+}
+
+impl Runner {
+    /// the verdict of a separate program that declares exactly `visible` (the compiler's own overloads first, the
+    /// others in the order of their ids) and then calls once
+    fn reference(&mut self, visible: &[Cand], args: &[ETy], targs: &[Option<Ty>], path: &SeqPath) -> Option<Verdict> {
+        let mut sorted: Vec<Cand> = visible.to_vec();
+        sorted.sort_by_key(|c| (is_user(c), c.id));
+        let p = match path {
+            SeqPath::Free => Path::Free,
+            SeqPath::Method => Path::Method,
+            SeqPath::TStruct => Path::TStruct,
+            SeqPath::Intrinsic(n) => Path::Intrinsic(n.clone()),
+        };
+        let opts = Opts { with_defs: false, path: p, targs: targs.to_vec(), form: 0 };
+        let key = format!("{}\t{}\t{}", show_cands(&sorted), show_args(args), show_opts(&opts));
+        if !self.refs.contains_key(&key) {
+            let v = run_program(&sorted, args, &opts);
+            self.compiles += 1;
+            if self.refs.len() > 8192 {
+                self.refs.clear();
+            }
+            self.refs.insert(key.clone(), v);
+        }
+        self.refs[&key].clone()
+    }
+
+    fn seq_case(&mut self, items: &[Item], path: &SeqPath, out: &mut Out) {
+        let req = show_seq(items, path);
+        if !seq_well_formed(items, path) {
+            out.case(&req, "-", "SKIP:bad request");
+            return;
+        }
+        if let SeqPath::Intrinsic(n) = path {
+            let given: Vec<Cand> = items
+                .iter()
+                .filter_map(|i| match i {
+                    Item::Decl(_, c) if !is_user(c) => Some(c.clone()),
+                    _ => None,
+                })
+                .collect();
+            if Self::builtins(&Path::Intrinsic(n.clone())) != Some(given) {
+                out.case(&req, "-", "SKIP:the request's compiler-provided overloads are not the ones of this compiler");
+                return;
+            }
+        }
+        let mut compiles = 0;
+        let ran = run_seq(items, path, &mut compiles);
+        self.compiles += compiles;
+        let obs = match ran {
+            None => {
+                out.case(&req, "-", "SKIP:not expressible as an RSSL program");
+                return;
+            }
+            Some(Err(e)) => {
+                // the generator avoids declarations that clash; a replayed / shrunk request may not
+                out.case(&req, "-", &format!("SKIP:the declarations alone are not accepted: {}", e));
+                return;
+            }
+            Some(Ok(o)) => o,
+        };
+        let mut verdict: Result<(), String> = Ok(());
+        // which instances of the helper templates exist (built by an accepted trigger)
+        let mut built: Vec<(u32, bool)> = Vec::new();
+        let mut nsites = 0;
+        let mut sets: Vec<String> = Vec::new();
+        for (k, o) in &obs {
+            let (mode, args, targs): (u8, Vec<ETy>, Vec<Option<Ty>>) = match &items[*k] {
+                Item::Site(m, a, t) => (*m, a.clone(), t.clone()),
+                Item::Trigger(j, z) => {
+                    let Some((m, a)) = items.iter().find_map(|x| match x {
+                        Item::Helper(j2, m, a, _) if j2 == j => Some((*m, a.clone())),
+                        _ => None,
+                    }) else {
+                        continue;
+                    };
+                    if matches!(o, SiteObs::V(Verdict::Sel(..))) {
+                        built.push((*j, *z));
+                    }
+                    (m, a, Vec::new())
+                }
+                _ => continue,
+            };
+            nsites += 1;
+            let v = match o {
+                SiteObs::Cached => {
+                    self.hist.add("seq-site:cached-instance");
+                    if let Item::Trigger(j, z) = &items[*k] {
+                        if !built.contains(&(*j, *z)) && verdict.is_ok() {
+                            verdict = Err(format!("site {}: the helper instance is reported as built, but no earlier accepted call built it", k));
+                        }
+                    }
+                    continue;
+                }
+                SiteObs::V(v) => v,
+            };
+            self.hist.add(match v {
+                Verdict::Sel(_, None) => "seq-site:selected",
+                Verdict::Sel(_, Some(_)) => "seq-site:selected-template",
+                Verdict::Amb(_) => "seq-site:ambiguous",
+                Verdict::Unmatched => "seq-site:unmatched",
+                Verdict::Refused(_) => "seq-site:refused-output",
+                Verdict::NoName => "seq-site:unknown-name",
+                Verdict::Rejected => "seq-site:refused-in-a-struct-template",
+                Verdict::Panic(_) => "seq-site:panic",
+                Verdict::Other(_) => "seq-site:other-error",
+            });
+            self.hist.add(&format!("seq-site:mode{}", mode));
+            if verdict.is_err() {
+                continue;
+            }
+            let visible = visible_at(items, *k, mode, path);
+            let Some(visible) = visible else {
+                if *v != Verdict::NoName && *v != Verdict::Rejected {
+                    verdict = Err(format!("site {}: no candidate is visible at the call, but the verdict is `{}`", k, show_verdict(v)));
+                }
+                continue;
+            };
+            self.hist.add(&format!("seq-site:visible{}", visible.len().min(9)));
+            let set_key = {
+                let mut s: Vec<Cand> = visible.clone();
+                s.sort();
+                format!("{}\t{}", show_cands(&s), show_args(&args))
+            };
+            if sets.contains(&set_key) {
+                self.hist.add("seq-site:same-set-as-an-earlier-site");
+            } else {
+                sets.push(set_key);
+            }
+            if *v == Verdict::NoName {
+                verdict = Err(format!("site {}: {} candidate(s) are visible at the call, but the name is reported as unknown", k, visible.len()));
+                continue;
+            }
+            let j = judge_set(&mut self.real, &visible, &args, &targs);
+            if *v == Verdict::Rejected {
+                // all that can be said: the call was not accepted
+                if j.exact.len() == 1 && !j.out_converted.contains(&j.exact[0]) && !j.out_const.contains(&j.exact[0]) {
+                    verdict = Err(format!("site {} (sees {:?}): candidate {} matches exactly but the call is refused", k, visible.iter().map(|c| c.id).collect::<Vec<_>>(), j.exact[0]));
+                } else if let Some(Verdict::Sel(id, _)) = self.reference(&visible, &args, &targs, path) {
+                    verdict = Err(format!(
+                        "site {} sees the candidates {:?} and is refused, but a program that declares exactly these and calls once selects {}",
+                        k,
+                        visible.iter().map(|c| c.id).collect::<Vec<_>>(),
+                        id
+                    ));
+                }
+                continue;
+            }
+            if let Err(e) = oracle(&j, v) {
+                verdict = Err(format!("site {} (sees {:?}): {}", k, visible.iter().map(|c| c.id).collect::<Vec<_>>(), e));
+                continue;
+            }
+            if let Some(r) = self.reference(&visible, &args, &targs, path) {
+                if !matches!(r, Verdict::Other(_)) && show_verdict(&r) != show_verdict(v) {
+                    verdict = Err(format!(
+                        "site {} sees the candidates {:?} and gives `{}`, but a program that declares exactly these and calls once gives `{}`: the verdict depends on more than the visible set and the argument types",
+                        k,
+                        visible.iter().map(|c| c.id).collect::<Vec<_>>(),
+                        show_verdict(v),
+                        show_verdict(&r)
+                    ));
+                }
+            }
+        }
+        let text = obs.iter().map(|(_, o)| show_site_obs(o)).collect::<Vec<_>>().join(" | ");
+        let o = match verdict {
+            Ok(()) => "ok".to_string(),
+            Err(e) => format!("FAIL:{}", e),
+        };
+        out.case(&req, &text, &o);
+        self.hist.add(&format!("seq:sites{}", nsites.min(12)));
+        self.hist.add(match path {
+            SeqPath::Free => "seq:path-free+namespace",
+            SeqPath::Method => "seq:path-method",
+            SeqPath::TStruct => "seq:path-method-of-struct-template",
+            SeqPath::Intrinsic(_) => "seq:path-intrinsic+user",
+        });
+        for it in items {
+            self.hist.add(match it {
+                Item::Decl(0, c) if !is_user(c) => "seq-item:compiler-provided",
+                Item::Decl(0, c) if c.tkinds.is_empty() => "seq-item:declaration",
+                Item::Decl(0, _) => "seq-item:template-declaration",
+                Item::Decl(_, c) if c.tkinds.is_empty() => "seq-item:declaration-in-reopened-namespace",
+                Item::Decl(..) => "seq-item:template-declaration-in-reopened-namespace",
+                Item::Define(_) => "seq-item:definition-of-a-declared-function",
+                Item::Site(..) => "seq-item:call-site",
+                Item::Helper(_, _, _, false) => "seq-item:function-template-with-a-call-in-its-body",
+                Item::Helper(..) => "seq-item:struct-template-with-a-call-in-a-method-body",
+                Item::Trigger(..) => "seq-item:call-that-instantiates-the-helper",
+            });
+        }
     }
 }
 
@@ -2138,6 +2902,14 @@ pub fn run(args: &Args, out: &mut Out) {
                         _ => out.case(&line, "-", "SKIP:bad request"),
                     }
                 }
+                ["C16.seq", body] | ["C16.seq", body, _] => {
+                    let path = parse_seq_path(if f.len() == 3 { f[2] } else { "" });
+                    let items: Option<Vec<Item>> = body.split('|').map(parse_item).collect();
+                    match (items, path) {
+                        (Some(i), Some(p)) => r.seq_case(&i, &p, out),
+                        _ => out.case(&line, "-", "SKIP:bad request"),
+                    }
+                }
                 ["C16.conv", src, dsts] => {
                     let s = parse_ety(src);
                     let d: Option<Vec<ETy>> = dsts.split(' ').map(parse_ety).collect();
@@ -2434,13 +3206,247 @@ pub fn run(args: &Args, out: &mut Out) {
             r.all_orders(&cands, &a, &Opts { with_defs: false, path: path.clone(), targs: Vec::new(), form: (i % 3) as u8 }, out);
         }
     }
+    // (10) calls interleaved with declarations: one program declares the overloads one by one (in a shuffled order, in
+    //      reopened namespaces, as methods, behind the compiler's own overloads, templates among them, prototypes defined
+    //      later) and calls the name after each declaration - the same arguments again and again, from the root, qualified,
+    //      from inside the namespace, from sibling methods, from inside template bodies instantiated before and after
+    let nq = if args.n.is_some() { n / 2 } else if args.thorough() { 12000 } else { 1300 };
+    for i in 0..nq {
+        let kind = i % 12;
+        let (mut cands, centre) = match kind {
+            4 | 5 => random_template_set(&mut rng, &mut hist),
+            10 => output_set(&mut rng, &mut hist),
+            _ => random_set(&mut rng, &mut hist),
+        };
+        if i % 24 == 4 {
+            // the instantiation registry: a template over two type parameters that every call instantiates, called with
+            // argument tuples that share the first / the later argument types
+            let arity = rng.range(2, 3) as usize;
+            let centre2: Vec<Ty> = (0..arity).map(|_| grid_ty(&mut rng)).collect();
+            let params: Vec<Param> = (0..arity)
+                .map(|k| {
+                    let tk = (k % 2) as u8;
+                    let layer = match (rng.below(4), centre2[k].layer) {
+                        (0, Layer::Vector(_, n)) => Layer::TVec(tk, n),
+                        _ => Layer::TVar(tk),
+                    };
+                    Param { io: Io::In, ty: Ty { mods: Mods(0), layer } }
+                })
+                .collect();
+            let mut cs = vec![Cand { id: 0, non_default: arity, params, tkinds: vec![true, true] }];
+            for _ in 0..rng.range(0, 2) {
+                let params: Vec<Param> = centre2.iter().map(|c| Param { io: random_io(&mut rng), ty: related_ty(&mut rng, *c) }).collect();
+                if !cs.iter().any(|c| c.params == params) {
+                    cs.push(Cand { id: cs.len() as u32, non_default: arity, params, tkinds: Vec::new() });
+                }
+            }
+            cands = cs;
+            let base: Vec<ETy> = centre2.iter().map(|c| ETy { lvalue: true, ty: *c }).collect();
+            let mut later = base.clone();
+            for k in 1..arity {
+                later[k] = ETy { lvalue: true, ty: grid_ty(&mut rng) };
+            }
+            let mut first = base.clone();
+            first[0] = ETy { lvalue: true, ty: grid_ty(&mut rng) };
+            let mut items: Vec<Item> = Vec::new();
+            for k in (1..cands.len()).rev() {
+                let j = rng.below(k as u64 + 1) as usize;
+                cands.swap(k, j);
+            }
+            for c in &cands {
+                items.push(Item::Decl(0, c.clone()));
+                for t in [&base, &later, &first, &base] {
+                    items.push(Item::Site(0, t.clone(), Vec::new()));
+                }
+            }
+            r.seq_case(&items, &SeqPath::Free, out);
+            continue;
+        }
+        if kind == 11 {
+            // the compiler's own overloads of an intrinsic, joined by user overloads one at a time
+            let name = rng.pick(&names).clone();
+            let path = Path::Intrinsic(name.clone());
+            let Some(builtins) = Runner::builtins(&path) else { continue };
+            if builtins.is_empty() {
+                continue;
+            }
+            let model = rng.pick(&builtins).clone();
+            let mut users: Vec<Cand> = Vec::new();
+            let mut tries = 0;
+            while users.len() < 2 && tries < 50 {
+                tries += 1;
+                let params: Vec<Param> = model
+                    .params
+                    .iter()
+                    .map(|p| Param {
+                        io: p.io,
+                        ty: if is_object_layer(p.ty.layer) {
+                            p.ty
+                        } else if is_template_layer(p.ty.layer) {
+                            grid_ty(&mut rng)
+                        } else {
+                            related_ty(&mut rng, p.ty)
+                        },
+                    })
+                    .collect();
+                if builtins.iter().any(|b| b.params == params) || users.iter().any(|u| u.params == params) {
+                    continue;
+                }
+                users.push(Cand { id: users.len() as u32, non_default: params.len(), params, tkinds: Vec::new() });
+            }
+            let mut tuples: Vec<Vec<ETy>> = Vec::new();
+            for t in 0..2 {
+                tuples.push(
+                    model
+                        .params
+                        .iter()
+                        .map(|p| {
+                            if is_object_layer(p.ty.layer) {
+                                ETy { lvalue: true, ty: p.ty }
+                            } else if is_template_layer(p.ty.layer) {
+                                let g = grid_ty(&mut rng);
+                                random_arg(&mut rng, g)
+                            } else if t == 0 || p.io != Io::In {
+                                ETy { lvalue: true, ty: p.ty }
+                            } else {
+                                random_arg(&mut rng, p.ty)
+                            }
+                        })
+                        .collect(),
+                );
+            }
+            let mut items: Vec<Item> = builtins.iter().map(|b| Item::Decl(0, b.clone())).collect();
+            for t in &tuples {
+                items.push(Item::Site(0, t.clone(), Vec::new()));
+            }
+            for u in &users {
+                items.push(Item::Decl(0, u.clone()));
+                for t in &tuples {
+                    items.push(Item::Site(0, t.clone(), Vec::new()));
+                }
+            }
+            r.seq_case(&items, &SeqPath::Intrinsic(name), out);
+            continue;
+        }
+        // a shuffled declaration order
+        for k in (1..cands.len()).rev() {
+            let j = rng.below(k as u64 + 1) as usize;
+            cands.swap(k, j);
+        }
+        let mut tuples: Vec<Vec<ETy>> = vec![centre.iter().map(|c| ETy { lvalue: true, ty: *c }).collect()];
+        for _ in 0..rng.range(0, 2) {
+            tuples.push(centre.iter().map(|c| random_arg(&mut rng, *c)).collect());
+        }
+        // the same types in another value category (an rvalue, a const object): a verdict may be shared between calls
+        // only if the arguments are the same *expression types*
+        let is_array = |t: &Ty| matches!(t.layer, Layer::Other(i) if (100..200).contains(&i));
+        if rng.chance(1, 3) {
+            tuples.push(centre.iter().map(|c| ETy { lvalue: is_array(c), ty: *c }).collect());
+        }
+        if rng.chance(1, 6) {
+            tuples.push(
+                centre
+                    .iter()
+                    .map(|c| ETy { lvalue: true, ty: Ty { mods: Mods(if is_numeric(c.layer) { 1 } else { 0 }), layer: c.layer } })
+                    .collect(),
+            );
+        }
+        // templates: the same first argument with other later ones (an instantiation is found again by *all* its arguments)
+        if matches!(kind, 4 | 5) && centre.len() > 1 {
+            let mut t = tuples[0].clone();
+            for k in 1..t.len() {
+                t[k] = random_arg(&mut rng, centre[k]);
+            }
+            tuples.push(t);
+        }
+        tuples.dedup();
+        let path = if kind == 9 { if i % 24 == 9 { SeqPath::TStruct } else { SeqPath::Method } } else { SeqPath::Free };
+        let with_ns = matches!(kind, 5 | 6 | 7) || (path == SeqPath::Method && (i / 24) % 2 == 1);
+        let with_helpers = matches!(kind, 7 | 8) ;
+        let explicit: Vec<Option<Ty>> = if matches!(kind, 4 | 5) && rng.chance(1, 5) { vec![Some(centre[0])] } else { Vec::new() };
+        let mut items: Vec<Item> = Vec::new();
+        if rng.chance(1, 10) && path == SeqPath::Free {
+            // a call before anything is declared
+            items.push(Item::Site(rng.below(4) as u8, tuples[0].clone(), Vec::new()));
+        }
+        let mut helper_modes: Vec<u8> = Vec::new();
+        let mut pending_defs: Vec<u32> = Vec::new();
+        for (di, c) in cands.iter().enumerate() {
+            let scope = if with_ns && rng.chance(1, 2) { 1 } else { 0 };
+            items.push(Item::Decl(scope, c.clone()));
+            if path == SeqPath::Free && c.tkinds.is_empty() && rng.chance(1, 4) {
+                pending_defs.push(c.id);
+            }
+            if with_helpers && di == 0 {
+                for j in 0..rng.range(1, 2) as u32 {
+                    let m = if with_ns { *rng.pick(&[0u8, 1, 2, 3]) } else { 0 };
+                    helper_modes.push(m);
+                    items.push(Item::Helper(j, m, tuples[(j as usize) % tuples.len()].clone(), rng.chance(1, 2)));
+                }
+            }
+            let last = di + 1 == cands.len();
+            if last || rng.chance(4, 5) {
+                for t in &tuples {
+                    let mode = match path {
+                        SeqPath::Method if with_ns => rng.below(4) as u8,
+                        SeqPath::Method => rng.below(2) as u8,
+                        SeqPath::TStruct => 1,
+                        _ if with_ns => rng.below(4) as u8,
+                        _ => 0,
+                    };
+                    items.push(Item::Site(mode, t.clone(), explicit.clone()));
+                }
+                for j in 0..helper_modes.len() as u32 {
+                    if rng.chance(2, 3) {
+                        items.push(Item::Trigger(j, rng.chance(1, 3)));
+                    }
+                }
+            }
+            // the definition of a function declared before, then the same calls again
+            if !pending_defs.is_empty() && (last || rng.chance(1, 2)) {
+                let id = pending_defs.remove(0);
+                if id != c.id || last {
+                    items.push(Item::Define(id));
+                    items.push(Item::Site(0, tuples[0].clone(), explicit.clone()));
+                } else {
+                    pending_defs.push(id);
+                }
+            }
+        }
+        if path == SeqPath::Method {
+            // a call names a struct that has a method of the name
+            let has = |sc: u8| items.iter().any(|x| matches!(x, Item::Decl(s, _) if *s == sc));
+            let (has0, has1) = (has(0), has(1));
+            for it in items.iter_mut() {
+                if let Item::Site(m, _, _) = it {
+                    if *m >= 2 && !has1 {
+                        *m -= 2;
+                    } else if *m < 2 && !has0 {
+                        *m += 2;
+                    }
+                }
+            }
+        }
+        r.seq_case(&items, &path, out);
+        // the same declarations the other way round: the last sites of both see the same set
+        if i % 3 == 0 {
+            let decls: Vec<usize> = items.iter().enumerate().filter(|(_, x)| matches!(x, Item::Decl(..))).map(|(k, _)| k).collect();
+            let mut rev = items.clone();
+            for (a, b) in decls.iter().zip(decls.iter().rev()) {
+                rev[*a] = items[*b].clone();
+            }
+            // a definition may now stand above its declaration: drop the definitions
+            rev.retain(|x| !matches!(x, Item::Define(_)));
+            r.seq_case(&rev, &path, out);
+        }
+    }
     for (k, v) in &hist.0 {
         for _ in 0..*v {
             r.hist.add(k);
         }
     }
     out.stat(&format!(
-        "{{\"conv_universe\":{},\"conv_pairs\":{},\"single_param_pairs\":{},\"random_sets\":{},\"tuples_per_set\":{},\"path_sets\":{},\"template_sets\":{},\"intrinsic_cases\":{},\"output_sets\":{},\"compiles\":{},\"hist\":{}}}",
+        "{{\"conv_universe\":{},\"conv_pairs\":{},\"single_param_pairs\":{},\"random_sets\":{},\"tuples_per_set\":{},\"path_sets\":{},\"template_sets\":{},\"intrinsic_cases\":{},\"output_sets\":{},\"sequences\":{},\"compiles\":{},\"hist\":{}}}",
         uni.len(),
         uni.len() * uni.len(),
         pairs,
@@ -2450,6 +3456,7 @@ pub fn run(args: &Args, out: &mut Out) {
         nt,
         ni,
         no,
+        nq,
         r.compiles,
         r.hist.json()
     ));
